@@ -113,6 +113,19 @@ def body_chain(case):
     u = np.array(case["u"][:n] + [0.5] * max(0, n - len(case["u"])), dtype=np.float64)
     _check_decay(eas, beta, tauBeta, tauLorentz, u)
     labels = set()
+    if case.get("preempt") and n >= 2:
+        # two overlapping Taus calls (one object, or two objects of this configuration): the batch and the batch reversed
+        from ..interleave import check_overlapping
+
+        other = Taus(conf) if case["preempt"][0] % 2 else taus
+        b_r, e_r, s_r = beta[::-1].copy(), log_e[::-1].copy(), np.concatenate([stream[:n][::-1]] * 3)
+
+        def call(obj, b_, e_, st_):
+            with scripted(st_.copy()):
+                return list(obj(b_, e_))
+
+        if check_overlapping(lambda: call(taus, beta, log_e, stream), lambda: call(other, b_r, e_r, s_r), case["preempt"], f"Taus.__call__ ({n} events, {'two objects' if other is not taus else 'one object'})"):
+            labels.add("overlapping_calls")
     if np.any(beta == BETA_MAX):
         labels.add("beta==42deg")
     if np.any(beta < BETA_MIN):
@@ -195,6 +208,15 @@ def body_decay(case):
     eas = EAS(_config())
     _check_decay(eas, beta, tb, gamma, u, layout=case.get("layout"))
     labels = set()
+    if case.get("preempt"):
+        from nuspacesim.simulation.eas_optical.eas import EAS as _EAS
+
+        from ..interleave import check_overlapping
+
+        other = _EAS(_config()) if case["preempt"][0] % 2 else eas
+        rev = [a[::-1].copy() for a in (beta, tb, gamma, u)]
+        if check_overlapping(lambda: eas.altDec(beta, tb, gamma, u), lambda: other.altDec(*rev), case["preempt"], f"EAS.altDec ({len(beta)} events, {'two objects' if other is not eas else 'one object'})"):
+            labels.add("overlapping_calls")
     if case.get("layout"):
         labels.add("layout_" + case["layout"])
     if np.any((u >= 1 - 1e-12) | (u <= 1e-12)):
@@ -316,6 +338,7 @@ SUBCHECKS = [
                 "frac": frac_st,
                 "events": st.lists(st.tuples(log_e_st, beta_em, st.floats(0.0, 1.0)).map(list), min_size=1, max_size=32),
                 "u": st.lists(u_dec, min_size=32, max_size=32),
+                "preempt": st.one_of(st.just([]), st.lists(st.one_of(st.integers(0, 40), st.integers(0, 400)), min_size=1, max_size=3)),
             }
         ),
         body_chain,
@@ -326,7 +349,7 @@ SUBCHECKS = [
     ),
     SubCheck(
         "decay",
-        st.fixed_dictionaries({"events": st.lists(st.tuples(gamma_st, beta_em, u_dec).map(list), min_size=1, max_size=48), "layout": st.sampled_from([None] + LAYOUTS)}),
+        st.fixed_dictionaries({"events": st.lists(st.tuples(gamma_st, beta_em, u_dec).map(list), min_size=1, max_size=48), "layout": st.sampled_from([None] + LAYOUTS), "preempt": st.one_of(st.just([]), st.lists(st.one_of(st.integers(0, 40), st.integers(0, 400)), min_size=1, max_size=3))}),
         body_decay,
         _nt,
         {"quick": 800, "thorough": 40000},
